@@ -783,6 +783,10 @@ def expand_constant_dicts(fnode):
                 if isinstance(p, ast.keyword) and p.arg is None and p.value is x:
                     star_uses.append(p)
                     continue
+                # obj.__dict__.update(d): one attribute store per key
+                if isinstance(p, ast.Call) and p.args == [x] and not p.keywords and isinstance(p.func, ast.Attribute) and p.func.attr == "update" \
+                        and isinstance(p.func.value, ast.Attribute) and p.func.value.attr == "__dict__" and isinstance(par.get(p), ast.Expr):
+                    continue
                 if isinstance(p, ast.Return) and p.value is x:
                     ok = False      # the dict escapes
                     break
@@ -820,6 +824,12 @@ def expand_constant_dicts(fnode):
         def rewrite(stmts):
             out = []
             for st in stmts:
+                if isinstance(st, ast.Expr) and isinstance(st.value, ast.Call) and len(st.value.args) == 1 and isinstance(st.value.args[0], ast.Name) and st.value.args[0].id == d \
+                        and isinstance(st.value.func, ast.Attribute) and st.value.func.attr == "update" and isinstance(st.value.func.value, ast.Attribute) and st.value.func.value.attr == "__dict__":
+                    obj = st.value.func.value.value
+                    for key in keys:
+                        out.append(ast.copy_location(ast.Assign(targets=[ast.Attribute(value=copy.deepcopy(obj), attr=key, ctx=ast.Store())], value=ast.Name(id=nm(key), ctx=ast.Load()), lineno=st.lineno), st))
+                    continue
                 if st is init:
                     pairs = zip(init.value.keys, init.value.values) if isinstance(init.value, ast.Dict) else [(ast.Constant(value=k.arg), k.value) for k in init.value.keywords]
                     for k, v in pairs:
@@ -937,6 +947,50 @@ def forward_none_tests(stmts, known=None):
     return out, changed
 
 
+# --------------------------------------------------------------------------------------------------- functools.reduce
+def unfold_reduce(stmts, counter):
+    """x = functools.reduce(F, IT, INIT) / return functools.reduce(..)   ->   acc = INIT; for e in IT: acc = F(acc, e); x = acc
+    without INIT (IT a plain name / path, taken to be a sequence):  acc = IT[0]; for e in IT[1:]: ..."""
+    changed = False
+    out = []
+    for st in stmts:
+        for fld in ("body", "orelse", "finalbody"):
+            sub = getattr(st, fld, None)
+            if isinstance(sub, list) and sub and isinstance(sub[0], ast.stmt) and not isinstance(st, (ast.FunctionDef, ast.ClassDef)):
+                new, ch = unfold_reduce(sub, counter)
+                setattr(st, fld, new)
+                changed = changed or ch
+        v = st.value if isinstance(st, (ast.Assign, ast.Return)) else None
+        if isinstance(v, ast.Call) and U(v.func) in ("functools.reduce", "reduce") and 2 <= len(v.args) <= 3 and not v.keywords:
+            F, IT = v.args[0], v.args[1]
+            init = v.args[2] if len(v.args) == 3 else None
+            if init is None and not _cheap(IT):
+                out.append(st)
+                continue
+            counter[0] += 1
+            acc, el = f"_acc{counter[0]}", f"_el{counter[0]}"
+            if init is None:
+                first = ast.Subscript(value=copy.deepcopy(IT), slice=ast.Constant(value=0), ctx=ast.Load())
+                rest = ast.Subscript(value=copy.deepcopy(IT), slice=ast.Slice(lower=ast.Constant(value=1), upper=None, step=None), ctx=ast.Load())
+            else:
+                first, rest = init, IT
+            call = ast.Call(func=F, args=[ast.Name(id=acc, ctx=ast.Load()), ast.Name(id=el, ctx=ast.Load())], keywords=[])
+            new = [ast.Assign(targets=[ast.Name(id=acc, ctx=ast.Store())], value=first, lineno=st.lineno, col_offset=0),
+                   ast.For(target=ast.Name(id=el, ctx=ast.Store()), iter=rest, orelse=[], lineno=st.lineno, col_offset=0,
+                           body=[ast.Assign(targets=[ast.Name(id=acc, ctx=ast.Store())], value=call, lineno=st.lineno, col_offset=0)])]
+            if isinstance(st, ast.Return):
+                new.append(ast.Return(value=ast.Name(id=acc, ctx=ast.Load())))
+            else:
+                new.append(ast.Assign(targets=st.targets, value=ast.Name(id=acc, ctx=ast.Load()), lineno=st.lineno, col_offset=0))
+            for x in new:
+                ast.fix_missing_locations(x)
+            out += new
+            changed = True
+            continue
+        out.append(st)
+    return out, changed
+
+
 # --------------------------------------------------------------------------------------------------- deferred raise
 def undefer_raises(stmts):
     """problem = None; if A: problem = M1 [elif B: problem = M2 ...]; if problem is not None: raise E(problem)
@@ -1013,6 +1067,10 @@ def has_constant_structure(repo, f):
             return True
         if isinstance(n, ast.Call) and isinstance(n.func, (ast.Lambda,)):
             return True
+        if isinstance(n, ast.Call) and U(n.func) in ("functools.reduce", "reduce"):
+            return True
+        if isinstance(n, ast.Call) and isinstance(n.func, ast.Attribute) and n.func.attr == "update" and isinstance(n.func.value, ast.Attribute) and n.func.value.attr == "__dict__":
+            return True
         if isinstance(n, ast.Compare) and len(n.ops) == 1 and isinstance(n.ops[0], (ast.In, ast.NotIn)) and isinstance(n.left, ast.Constant) \
                 and isinstance(n.comparators[0], (ast.Name, ast.Attribute)) and _table(repo, f, n.comparators[0]) is not None:
             return True
@@ -1030,6 +1088,11 @@ def partial_evaluate(repo, max_rounds=4):
         steps = []
         for _ in range(max_rounds):
             ch = False
+            body, c0 = unfold_reduce(f.node.body, counter)
+            f.node.body = body
+            if c0:
+                ch = True
+                steps.append("reduce")
             if inline_closures(f.node):
                 ch = True
                 steps.append("closures")
